@@ -13,6 +13,7 @@ import (
 	"sort"
 	"strings"
 	"sync"
+	"sync/atomic"
 	"testing"
 	"time"
 
@@ -26,9 +27,23 @@ import (
 var c33HashSlots = [2]uint16{3, 35} // same directory shard (ShardCount 4)
 
 const (
-	c33LocalNode = 1
-	c33TTL       = time.Second
+	c33LocalNode    = 1
+	c33TTL          = time.Second
+	c33BaseRevision = 5 // RouteRevision of every become(slot,term) announcement
 )
+
+// c33RevCap bounds, per hash slot, how many revision-only updates ("rev") of one authority
+// incarnation are remembered in the merged state. A rev changes nothing in the model, so
+// without a marker the state after it is merged with the state before it and NO continuation
+// of "... ; rev" is ever explored (only its immediate effect is judged): a hidden change of
+// the fences made by a revision-only update (e.g. tombstone compaction) would stay invisible.
+// The marker is the model state the rev acted on (see canon). Beyond the cap a further rev is
+// still executed and judged in every state, but merged.
+var c33RevCap [2]int
+
+// vacuity counters: delayed operations carrying exactly the sequence of an earlier
+// unregister, executed after a revision-only authority update of the same incarnation.
+var c33DelayedRegAfterRev, c33DelayedTouchAfterRev atomic.Int64
 
 type c33ID struct {
 	name string
@@ -113,6 +128,9 @@ type c33Pending struct {
 
 type c33Slot struct {
 	term     uint64 // 0 = no authority installed
+	revs     int    // remembered revision-only updates of this incarnation (capped)
+	revMark  string // the model state each remembered update acted on (part of the merged state)
+	revSent  uint64 // highest RouteRevision announced for this incarnation (the model owns the value)
 	active   map[presence.RouteIdentity]presence.Route
 	pending  []c33Pending
 	ownerSeq map[presence.RouteIdentity]uint64
@@ -121,7 +139,7 @@ type c33Slot struct {
 }
 
 func c33Fresh(term uint64) *c33Slot {
-	return &c33Slot{term: term, active: map[presence.RouteIdentity]presence.Route{}, ownerSeq: map[presence.RouteIdentity]uint64{}, tomb: map[presence.RouteIdentity]uint64{}}
+	return &c33Slot{term: term, revSent: c33BaseRevision, active: map[presence.RouteIdentity]presence.Route{}, ownerSeq: map[presence.RouteIdentity]uint64{}, tomb: map[presence.RouteIdentity]uint64{}}
 }
 
 func c33LessID(l, r presence.RouteIdentity) bool {
@@ -359,6 +377,11 @@ func (s *c33Slot) canon() string {
 		}
 	}
 	b.WriteString("}")
+	// A revision-only update changes nothing in the model. The state after it is kept apart
+	// from every state reached without it (or with it acting on another state) by remembering
+	// WHICH state it acted on: what a hidden side effect of the update (dropping a fence, a
+	// candidate, a route index entry) can depend on.
+	b.WriteString(s.revMark)
 	return b.String()
 }
 
@@ -376,10 +399,11 @@ type c33Inst struct {
 	expired  uint64 // model of Snapshot.ExpiredRoutesTotal
 	variant  int    // rotates the diagnostic fields of valid targets
 	thorough bool
+	markRevs bool // system "directory-rev": states after a revision-only update are kept apart (c33RevCap)
 }
 
-func c33New(thorough bool) *c33Inst {
-	return &c33Inst{d: presence.NewDirectory(presence.DirectoryOptions{LocalNodeID: c33LocalNode, ShardCount: 4}), thorough: thorough}
+func c33New(thorough, markRevs bool) *c33Inst {
+	return &c33Inst{d: presence.NewDirectory(presence.DirectoryOptions{LocalNodeID: c33LocalNode, ShardCount: 4}), thorough: thorough, markRevs: markRevs}
 }
 
 func (x *c33Inst) installed(slot int) bool { return x.m[slot] != nil && x.m[slot].term != 0 }
@@ -554,14 +578,24 @@ func (x *c33Inst) Apply(event string, _ *mc.Env) (string, error) {
 		}
 		return "become", nil
 	case "rev":
-		// same Raft identity, newer routing-table revision: state must be kept
-		t := c33Target(slot, x.m[slot].term)
-		t.RouteRevision = 6
+		// same Raft identity, STRICTLY newer routing-table revision (revision-only update):
+		// routes, pending candidates, owner sequences and tombstones must all be kept
+		m := x.m[slot]
+		m.revSent++
+		t := c33Target(slot, m.term)
+		t.RouteRevision = m.revSent
 		t.AuthorityEpoch = 2
+		x.d.BecomeAuthority(t)
+		// the same revision announced again (equal revision, other diagnostic epoch): kept too
+		t.AuthorityEpoch = 3
 		x.d.BecomeAuthority(t)
 		// and an older revision of the same identity arriving late: ignored
 		t.RouteRevision = 1
 		x.d.BecomeAuthority(t)
+		if x.markRevs && m.revs < c33RevCap[slot] {
+			m.revs++
+			m.revMark = "@rev[" + m.canon() + "]"
+		}
 		return "rev", nil
 	case "lose":
 		x.d.LoseAuthority(c33HashSlots[slot])
@@ -576,6 +610,9 @@ func (x *c33Inst) Apply(event string, _ *mc.Env) (string, error) {
 		r := c33Route(i, seq, connected, 0)
 		res, err := x.d.RegisterRoute(x.valid(slot), r)
 		wasTomb, hasTomb := x.m[slot].tomb[r.Identity()]
+		if hasTomb && seq == wasTomb && x.m[slot].revSent > c33BaseRevision {
+			c33DelayedRegAfterRev.Add(1)
+		}
 		tok, acts, werr := x.m[slot].register(r)
 		if hasTomb && seq <= wasTomb && err == nil {
 			return "reg", mc.Violatef("C33:register-accepted-at-or-below-unregister-seq", "slot %d: RegisterRoute(%s, seq %d) accepted although the identity was unregistered at seq %d (result %+v)", slot, name, seq, wasTomb, res)
@@ -605,6 +642,9 @@ func (x *c33Inst) Apply(event string, _ *mc.Env) (string, error) {
 		i := c33IDByName(name)
 		r := c33Route(i, seq, 100, seen)
 		err := x.d.TouchRoutes(x.valid(slot), []presence.Route{r})
+		if t, ok := x.m[slot].tomb[r.Identity()]; ok && seq == t && x.m[slot].revSent > c33BaseRevision {
+			c33DelayedTouchAfterRev.Add(1)
+		}
 		x.m[slot].touch(r)
 		x.touches++
 		if err != nil {
@@ -842,11 +882,10 @@ func (x *c33Inst) Check() error {
 	if err != nil {
 		return err
 	}
-	// ---- the real state is the model state
-	if want := x.modelObserve(); pre != want {
-		return mc.Violatef("C33:state-differs-from-model", "directory state %s, model %s", pre, want)
-	}
-	// ---- no unregistered identity is visible at or below its unregister sequence
+	// ---- no unregistered identity is visible at or below its unregister sequence (the
+	// tombstones are the MODEL's: recorded at every accepted unregister of this authority
+	// incarnation, never read from the directory; judged before the generic state comparison
+	// so that a reappearing route gets this fingerprint)
 	for slot := 0; slot < 2; slot++ {
 		if !x.installed(slot) {
 			continue
@@ -857,6 +896,10 @@ func (x *c33Inst) Check() error {
 				return mc.Violatef("C33:unregistered-route-visible", "slot %d: route %s is active although its identity was unregistered at owner seq %d", slot, c33RouteStr(r), t)
 			}
 		}
+	}
+	// ---- the real state is the model state
+	if want := x.modelObserve(); pre != want {
+		return mc.Violatef("C33:state-differs-from-model", "directory state %s, model %s", pre, want)
 	}
 	// ---- every operation with every stale target: ErrNotLeader, nothing changes
 	for slot := 0; slot < 2; slot++ {
@@ -996,21 +1039,44 @@ func TestVerifC33(t *testing.T) {
 	r := ev.Start(t, "C33")
 	defer r.Finish()
 	thorough := r.Thorough()
-	depth := ev.Pick(r, 5, 8)
-	res := mc.Run(r, mc.System{
-		Name:     "directory",
-		New:      func() mc.Instance { return c33New(thorough) },
-		MaxDepth: depth,
-		Bounds: map[string]any{"hash_slots": c33HashSlots, "identities": "a1 (uid a, owner 1, master), a2 (uid a, owner 2, slave, other device), b1 (uid b, owner 1); slot 1 carries a1 only",
-			"owner_seq_menu": "1,2 (probes with stale targets use 3)", "timestamps": "connected/last-seen 100 or 102, expire now in {101,103,104}, ttl 1s",
-			"authority_menu": "terms 1,2 per slot (become newer and older), same-identity revision update, lose", "stale_target_menu": "terms 1..3 except the installed one, term 0, other config epoch, other leader node, other slot id"},
-		Note: "states are merged on the reference model (authority term, active routes with all fields, pending candidates with tokens, owner sequences, tombstones, token counter per slot); the directory's observable state is compared with the model in every state, and light stale-target probes run before every event so that a trace left by a fenced caller propagates along the path",
-	})
+	c33RevCap = ev.Pick(r, [2]int{1, 1}, [2]int{2, 1})
+	run := func(name string, markRevs bool, depth int, merge string) mc.Result {
+		bounds := map[string]any{"hash_slots": c33HashSlots, "identities": "a1 (uid a, owner 1, master), a2 (uid a, owner 2, slave, other device), b1 (uid b, owner 1); slot 1 carries a1 only",
+			"owner_seq_menu": "1,2 (probes with stale targets use 3); register, touch and unregister all draw from the same menu, so delayed registers/touches carry exactly the sequence of an earlier unregister", "timestamps": "connected/last-seen 100 or 102, expire now in {101,103,104}, ttl 1s",
+			"authority_menu": "terms 1,2 per slot (become newer and older), lose, rev = revision-only update of the installed identity (strictly higher RouteRevision, then the equal revision again, then a late older one)",
+			"stale_target_menu": "terms 1..3 except the installed one, term 0, other config epoch, other leader node, other slot id"}
+		if markRevs {
+			bounds["revision_updates_remembered"] = fmt.Sprintf("%v per authority incarnation of slot 0/1", c33RevCap)
+		}
+		return mc.Run(r, mc.System{
+			Name:     name,
+			New:      func() mc.Instance { return c33New(thorough, markRevs) },
+			MaxDepth: depth,
+			Bounds:   bounds,
+			Note:     "states are merged on the reference model (authority term, active routes with all fields, pending candidates with tokens, owner sequences, tombstones, token counter per slot" + merge + "); the directory's observable state is compared with the model in every state, and light stale-target probes run before every event so that a trace left by a fenced caller propagates along the path",
+		})
+	}
+	// directory-rev (both tiers): a revision-only authority update changes nothing in the
+	// model, so the state after it is kept apart by remembering the model state it acted on;
+	// every continuation of "... ; rev" up to the depth bound is explored (delayed register /
+	// touch at exactly the sequence of an earlier unregister, commit of an older candidate ...).
+	// At equal depth its explored states refine those of the plain system below.
+	revRes := run("directory-rev", true, ev.Pick(r, 5, 6), ", plus, for each remembered revision-only update, the model state that update acted on")
+	// directory (thorough only, deeper): revision-only updates are executed and judged in
+	// every state but their successor is merged with the state before them.
+	var plainRes mc.Result
+	if thorough || r.Replay() != nil {
+		plainRes = run("directory", false, 8, "")
+	}
 	if r.Replay() != nil {
 		return
 	}
-	r.Guard("states", res.States >= 2000, "%d states", res.States)
-	r.Guard("outcomes", res.Outcomes >= 12, "%d distinct observations (want register active/pending/stale, commit ok/stale/not-ready, expire 0..n ...)", res.Outcomes)
+	r.Guard("states", revRes.States >= 2000 && (!thorough || plainRes.States >= 2000), "%d / %d states", revRes.States, plainRes.States)
+	r.Guard("delayed-register-after-rev", c33DelayedRegAfterRev.Load() >= 10, "%d RegisterRoute calls at exactly the sequence of an earlier unregister after a revision-only authority update", c33DelayedRegAfterRev.Load())
+	r.Guard("delayed-touch-after-rev", c33DelayedTouchAfterRev.Load() >= 10, "%d TouchRoutes calls at exactly the sequence of an earlier unregister after a revision-only authority update", c33DelayedTouchAfterRev.Load())
+	r.Count("delayed_register_at_unregister_seq_after_rev_incl_replayed_prefixes", c33DelayedRegAfterRev.Load())
+	r.Count("delayed_touch_at_unregister_seq_after_rev_incl_replayed_prefixes", c33DelayedTouchAfterRev.Load())
+	r.Guard("outcomes", revRes.Outcomes >= 12, "%d distinct observations (want register active/pending/stale, commit ok/stale/not-ready, expire 0..n ...)", revRes.Outcomes)
 	r.Assume("authority identity = (HashSlot, SlotID, LeaderNodeID, LeaderTerm, ConfigEpoch); RouteRevision and AuthorityEpoch are diagnostic and not part of the fence (sameAuthorityIdentity, DESIGN Appendix D): valid-target calls rotate them")
 	r.Assume("tombstones and owner sequences belong to one authority incarnation: BecomeAuthority with another identity and LoseAuthority clear them by design (FLOW.md); 'never reappears at or below its unregister sequence' is demanded within an incarnation")
 	r.Assume("every menu route carries a non-zero timestamp (routes without activity time are never indexed for expiry by design); ttl <= 0 and a zero 'now' disable expiry by design and are only checked to remove nothing")
